@@ -1605,12 +1605,27 @@ def _run_e2e(case, res, S):
     # after an input became newer.  Drift accumulates, so every stage is
     # compared with the one before, which transitively is the configure's.
     envs = {'E1': (e1, src, [bd]), 'E2': (e2, cwd2, bd_args)}
+    # the later invocations under E2 start bfg9000 through ANOTHER PATH than configure did (a
+    # directory holding nothing but a symbolic link to the console script): how the program
+    # was called is part of "the command line of that later invocation"
+    bfg2 = bfg
+    if case.get('index', 0) % 2 == 0:
+        alias_dir = os.path.join(os.path.dirname(bd.rstrip('/')) or '/', 'alias-bin')
+        try:
+            os.makedirs(alias_dir, exist_ok=True)
+            if not os.path.lexists(os.path.join(alias_dir, 'bfg9000')):
+                os.symlink(bfg, os.path.join(alias_dir, 'bfg9000'))
+            bfg2 = os.path.join(alias_dir, 'bfg9000')
+            res.ev('e2e:later-invocations-through-an-alias-path')
+        except OSError:
+            bfg2 = bfg
     stages = [{'name': 'E1', 'mode': 'plain', 'argv': [bfg, 'regenerate', bd]},
-              {'name': 'E2', 'mode': 'plain', 'argv': [bfg, regen] + bd_args}]
+              {'name': 'E2', 'mode': 'plain', 'argv': [bfg2, regen] + bd_args}]
     lazy_cli, lazy_backend = [], []
     for name in case.get('lazy_order', ['E1', 'E2']):
         lazy_cli.append({'name': name, 'mode': 'lazy-cli',
-                         'argv': [bfg, 'regenerate', '--lazy'] + envs[name][2]})
+                         'argv': [bfg2 if name == 'E2' else bfg, 'regenerate', '--lazy'] +
+                         envs[name][2]})
     for name in case.get('backend_order', ['E2', 'E1']):
         if backend == 'make':
             argv_b = ['/usr/bin/make', '--no-print-directory', 'Makefile']
